@@ -1,10 +1,146 @@
 import CueVerif.Driver.Proto
+import CueVerif.Spec.Fmt
 namespace CueVerif.Driver.C08
-open CueVerif CueVerif.Driver
+open CueVerif CueVerif.Driver CueVerif.Fmt
+
+/-! expression wire format (one word): `I<letters/digits>` ident, `N<digits>` int,
+`U<code>(x)`, `B<code>(x,y)`, `P(x)`; operator codes are the Go token numbers. -/
+
+def takeWhileC (p : Char → Bool) : List Char → List Char × List Char
+  | [] => ([], [])
+  | c :: cs => if p c then let (a, b) := takeWhileC p cs; (c :: a, b) else ([], c :: cs)
+
+def natOfDigits (ds : List Char) : Nat := ds.foldl (fun n c => n * 10 + (c.toNat - 48)) 0
+
+def parseX : Nat → List Char → Option (Expr × List Char)
+  | 0, _ => none
+  | _ + 1, [] => none
+  | n + 1, c :: cs =>
+    if c = 'I' then
+      let (s, r) := takeWhileC isIdentChar cs
+      some (.atom (.ident s), r)
+    else if c = 'N' then
+      let (s, r) := takeWhileC isDigit cs
+      some (.atom (.int s), r)
+    else if c = 'P' then
+      match cs with
+      | '(' :: r =>
+        match parseX n r with
+        | some (x, ')' :: r') => some (.paren x, r')
+        | _ => none
+      | _ => none
+    else if c = 'U' then
+      let (ds, r) := takeWhileC isDigit cs
+      match OpTok.ofCode (natOfDigits ds), r with
+      | some o, '(' :: r1 =>
+        match parseX n r1 with
+        | some (x, ')' :: r') => some (.un o x, r')
+        | _ => none
+      | _, _ => none
+    else if c = 'B' then
+      let (ds, r) := takeWhileC isDigit cs
+      match OpTok.ofCode (natOfDigits ds), r with
+      | some o, '(' :: r1 =>
+        match parseX n r1 with
+        | some (x, ',' :: r2) =>
+          match parseX n r2 with
+          | some (y, ')' :: r') => some (.bin o x y, r')
+          | _ => none
+        | _ => none
+      | _, _ => none
+    else none
+
+def readExpr (s : String) : Option Expr :=
+  match parseX (s.length + 1) s.toList with
+  | some (e, []) => some e
+  | _ => none
+
+partial def showExpr : Expr → String
+  | .atom (.ident s) => "I" ++ String.ofList s
+  | .atom (.int s) => "N" ++ String.ofList s
+  | .un o x => s!"U{o.code}({showExpr x})"
+  | .bin o x y => s!"B{o.code}({showExpr x},{showExpr y})"
+  | .paren x => s!"P({showExpr x})"
+
+def showTok : Tok → String
+  | .op o => toString o.code
+  | .atom (.ident s) => "I" ++ String.ofList s
+  | .atom (.int s) => "N" ++ String.ofList s
+
+def showToks (ts : List Tok) : String :=
+  if ts.isEmpty then "-" else " ".intercalate (ts.map showTok)
+
+def bytesOfChars (cs : List Char) : List Nat := cs.map (·.toNat)
+def charsOfBytes (bs : List Nat) : List Char := bs.map Char.ofNat
 
 /-- protocol handler for C08: words of one op line (after the property id) → answer -/
 def handle (ws : List String) : String :=
   match ws with
+  | ["prec", n] =>
+    match n.toNat? with
+    | some k => match OpTok.ofCode k with
+      | some o => toString o.prec
+      | none => "0"
+    | none => "bad-op"
+  | ["unop", n] =>
+    match n.toNat? with
+    | some k => match OpTok.ofCode k with
+      | some o => boolStr o.isUnary
+      | none => "false"
+    | none => "bad-op"
+  | ["spell", n] =>
+    match n.toNat? with
+    | some k => match OpTok.ofCode k with
+      | some o => hex (bytesOfChars o.spell)
+      | none => "none"
+    | none => "bad-op"
+  | ["scan", h] =>
+    match unhex h with
+    | some bs => match scan (charsOfBytes bs) with
+      | some ts => showToks ts
+      | none => "none"
+    | none => "bad-op"
+  | ["hazard", a, b] =>
+    -- the spec's hazard verdict for two operator tokens
+    match a.toNat?, b.toNat? with
+    | some x, some y => match OpTok.ofCode x, OpTok.ofCode y with
+      | some p, some q => boolStr (hazard (.op p) (.op q))
+      | _, _ => "bad-op"
+    | _, _ => "bad-op"
+  | ["parse", h] =>
+    match unhex h with
+    | some bs => match (scan (charsOfBytes bs)).bind parseE with
+      | some e => showExpr e
+      | none => "none"
+    | none => "bad-op"
+  | ["print", _, e] =>
+    match readExpr e with
+    | some x => showToks (printE x)
+    | none => "bad-op"
+  | ["norm", _, e] =>
+    match readExpr e with
+    | some x => showExpr (norm x)
+    | none => "bad-op"
+  | ["fmt1", e] =>
+    match readExpr e with
+    | some x => hex (bytesOfChars (render (fmtV1 x)))
+    | none => "bad-op"
+  | ["fmt1fixed", e] =>
+    match readExpr e with
+    | some x => hex (bytesOfChars (render (fmtV1g true x)))
+    | none => "bad-op"
+  | ["fmt2", e] =>
+    match readExpr e with
+    | some x => hex (bytesOfChars (render (fmtV2 x)))
+    | none => "bad-op"
+  | ["safe1", e] =>
+    match readExpr e with
+    | some x => boolStr (sepOK (fmtV1 x))
+    | none => "bad-op"
+  | ["nomerge", e] =>
+    match readExpr e with
+    | some x => boolStr (NoUnaryMerge x)
+    | none => "bad-op"
   | _ => "bad-op"
 
 end CueVerif.Driver.C08
